@@ -7,6 +7,7 @@
 package main
 
 import (
+	"bytes"
 	"strings"
 	"encoding/hex"
 	"encoding/json"
@@ -43,6 +44,10 @@ type Obs struct {
 	Status    int      `json:"status"`
 	CT        string   `json:"content_type"`
 	BodyHex   string   `json:"body_hex"`
+	// BigClass is set when the client's or the backend's body is over 1 MiB: the byte comparison is made here
+	// ("equal" | "prefix" | "other") and only the heads of both bodies travel to the driver
+	BigClass string `json:"big_class,omitempty"`
+	BodyLen  int    `json:"body_len"`
 	Mode      string   `json:"mode"` // X-Olla-Mode
 	Ms        int64    `json:"ms"`
 	Contacted []string `json:"contacted"`   // backends that received the request, in order
@@ -59,6 +64,10 @@ func backendErrBody(kind string, status int) ([]byte, string) {
 	}
 	if kind == "big" { // an error page far larger than any pipe/buffer size on the way
 		return []byte(fmt.Sprintf("<html><body>%d ", status) + strings.Repeat("stack trace line\n", 16000) + "</body></html>"), "text/html"
+	}
+	if kind == "huge" { // a validation error that echoes a large prompt back: several MiB of JSON
+		b, _ := json.Marshal(map[string]any{"detail": []any{map[string]any{"loc": []string{"body", "messages"}, "msg": "value is not a valid list", "input": strings.Repeat("lorem ipsum dolor sit amet ", 120000)}}})
+		return b, "application/json"
 	}
 	b, _ := json.Marshal(map[string]any{"error": map[string]any{"message": fmt.Sprintf("backend refused with %d", status), "type": "backend_error", "code": "e" + fmt.Sprint(status)}})
 	return b, "application/json"
@@ -201,9 +210,8 @@ func run(sc *Scenario) *Obs {
 	obs.Err, obs.Status, obs.Ms = r.Err, r.Status, r.Ms
 	obs.CT = anth.Header1(r, "Content-Type")
 	obs.Mode = anth.Header1(r, "X-Olla-Mode")
-	if len(r.Body) <= 1<<20 {
-		obs.BodyHex = hex.EncodeToString(r.Body)
-	}
+	obs.BodyLen = len(r.Body)
+	clientBody := r.Body
 	time.Sleep(20 * time.Millisecond)
 	var all []*stack.Seen
 	for _, b := range bes {
@@ -220,8 +228,28 @@ func run(sc *Scenario) *Obs {
 		obs.Shapes = append(obs.Shapes, anth.Shape(x.Body))
 	}
 	smu.Lock()
-	obs.SentHex, obs.SentCT = hex.EncodeToString(sent), sentCT
+	sentCopy := append([]byte(nil), sent...)
+	obs.SentCT = sentCT
 	smu.Unlock()
+	if len(clientBody) > 1<<20 || len(sentCopy) > 1<<20 {
+		switch {
+		case bytes.Equal(clientBody, sentCopy):
+			obs.BigClass = "equal"
+		case len(clientBody) > 0 && bytes.HasPrefix(sentCopy, clientBody):
+			obs.BigClass = "prefix"
+		default:
+			obs.BigClass = "other"
+		}
+		head := func(b []byte) []byte {
+			if len(b) > 2048 {
+				return b[:2048]
+			}
+			return b
+		}
+		obs.BodyHex, obs.SentHex = hex.EncodeToString(head(clientBody)), hex.EncodeToString(head(sentCopy))
+	} else {
+		obs.BodyHex, obs.SentHex = hex.EncodeToString(clientBody), hex.EncodeToString(sentCopy)
+	}
 	for n, st := range s.Statuses() {
 		if st == "offline" {
 			obs.Offline = append(obs.Offline, n)
@@ -281,6 +309,7 @@ func main() {
 					}
 					add(Scenario{Fault: "b5xx", Route: route, Stream: stream, Engine: engine, N: 1, Status: 500, ErrBody: "big"})
 					add(Scenario{Fault: "b4xx", Route: route, Stream: stream, Engine: engine, N: 1, Status: 429, ErrBody: "big"})
+					add(Scenario{Fault: "b4xx", Route: route, Stream: stream, Engine: engine, N: 1, Status: 422, ErrBody: "huge"})
 					for _, eb := range []string{"json", "text"} {
 						for _, st := range statuses4 {
 							add(Scenario{Fault: "b4xx", Route: route, Stream: stream, Engine: engine, N: 1 + r.Intn(2), Status: st, ErrBody: eb})
